@@ -42,7 +42,42 @@ def c09(tier):
     return [R("faults")]
 
 
+def c01(tier):
+    return [R("probstate")]
+
+
+def c02(tier):
+    return [R("probstate")]
+
+
+def c03(tier):
+    return [R("probstate"), R("faults")]
+
+
+def c06(tier):
+    return [R("probstate")]
+
+
+def c07(tier):
+    return [R("probstate")]
+
+
+def c10(tier):
+    return [R("probstate")]
+
+
+def c11(tier):
+    return [R("probstate", rayon_threads=4)]
+
+
 PLAN = {
+    "C01": c01,
+    "C02": c02,
+    "C03": c03,
+    "C06": c06,
+    "C07": c07,
+    "C10": c10,
+    "C11": c11,
     "C08": c08,
     "C09": c09,
     "C12": c12,
@@ -73,6 +108,13 @@ LEVEL = {
 }
 
 RULES = {
+    "C01": "scenario = (family, N, provenance, f32|f64, seq|par, single|mrhs + observation columns, weight kind, threshold kind, alphabet of 4-9 parameter vectors); within a scenario ALL histories of set_params over the alphabet up to depth d are executed on the live problem (d=2 quick, 3 thorough; C10: 3/4); state = everything the LeastSquaresProblem interface exposes (bit patterns of params, residuals, coefficients, Jacobian); non-trivial = distinct reached states whose rank class is decidable (Full or Truncated) and on which the heavy oracle ran",
+    "C02": "scenario = (family, N, provenance, f32|f64, seq|par, single|mrhs + observation columns, weight kind, threshold kind, alphabet of 4-9 parameter vectors); within a scenario ALL histories of set_params over the alphabet up to depth d are executed on the live problem (d=2 quick, 3 thorough; C10: 3/4); state = everything the LeastSquaresProblem interface exposes (bit patterns of params, residuals, coefficients, Jacobian); non-trivial = distinct reached states whose rank class is decidable (Full or Truncated) and on which the heavy oracle ran",
+    "C03": "scenario = (family, N, provenance, f32|f64, seq|par, single|mrhs + observation columns, weight kind, threshold kind, alphabet of 4-9 parameter vectors); within a scenario ALL histories of set_params over the alphabet up to depth d are executed on the live problem (d=2 quick, 3 thorough; C10: 3/4); state = everything the LeastSquaresProblem interface exposes (bit patterns of params, residuals, coefficients, Jacobian); non-trivial = distinct reached states whose rank class is decidable (Full or Truncated) and on which the heavy oracle ran; plus the fault sweep of the C09 engine for the all-or-nothing clause",
+    "C06": "scenario = (family, N, provenance, f32|f64, seq|par, single|mrhs + observation columns, weight kind, threshold kind, alphabet of 4-9 parameter vectors); within a scenario ALL histories of set_params over the alphabet up to depth d are executed on the live problem (d=2 quick, 3 thorough; C10: 3/4); state = everything the LeastSquaresProblem interface exposes (bit patterns of params, residuals, coefficients, Jacobian); non-trivial = distinct reached states whose rank class is decidable (Full or Truncated) and on which the heavy oracle ran; every scenario runs the weighted subject and its row-scaled / unweighted / row-deleted / |w| twin in lock-step",
+    "C07": "scenario = (family, N, provenance, f32|f64, seq|par, single|mrhs + observation columns, weight kind, threshold kind, alphabet of 4-9 parameter vectors); within a scenario ALL histories of set_params over the alphabet up to depth d are executed on the live problem (d=2 quick, 3 thorough; C10: 3/4); state = everything the LeastSquaresProblem interface exposes (bit patterns of params, residuals, coefficients, Jacobian); non-trivial = distinct reached states whose rank class is decidable (Full or Truncated) and on which the heavy oracle ran; every scenario runs the mrhs subject and one single-rhs problem per column in lock-step; scenarios = all ordered selections of 1..3 columns from a 6-column pool (+ two with 4 and 5 columns)",
+    "C10": "scenario = (family, N, provenance, f32|f64, seq|par, single|mrhs + observation columns, weight kind, threshold kind, alphabet of 4-9 parameter vectors); within a scenario ALL histories of set_params over the alphabet up to depth d are executed on the live problem (d=2 quick, 3 thorough; C10: 3/4); state = everything the LeastSquaresProblem interface exposes (bit patterns of params, residuals, coefficients, Jacobian); non-trivial = distinct reached states whose rank class is decidable (Full or Truncated) and on which the heavy oracle ran; additionally scenarios whose alphabet contains a parameter vector the model rejects (at set_params or at evaluation)",
+    "C11": "scenario = (family, N, provenance, f32|f64, seq|par, single|mrhs + observation columns, weight kind, threshold kind, alphabet of 4-9 parameter vectors); within a scenario ALL histories of set_params over the alphabet up to depth d are executed on the live problem (d=2 quick, 3 thorough; C10: 3/4); state = everything the LeastSquaresProblem interface exposes (bit patterns of params, residuals, coefficients, Jacobian); non-trivial = distinct reached states whose rank class is decidable (Full or Truncated) and on which the heavy oracle ran; every scenario runs the parallel subject and its sequential twin in lock-step (real rayon)",
     "C08": "case = a finite baseline problem (family x N in {1,2,3,4(,8)} x S in {1,2} x provenance x flavour x weights x f32/f64) with <= k positions (each element of x, y, w, the initial alpha, or a later set_params vector) replaced by one of 14 IEEE special values; every case runs build, queries, set_params, fit, fit_with_statistics and all statistics accessors; non-trivial = the basis matrix at the starting parameters is non-finite (the path the property is about)",
     "C09": "case = (scenario, phase in {caller history <= d over 3 parameter vectors, fit, fit_with_statistics}, failing model-call index k < n, transient|persistent, model keeps|stores rejected parameters); non-trivial = the injected failure actually fired",
     "C12": "case = (family/shape with N from M to M+P+3, width, provenance, weights, one of three solver set-ups that make success independent of the data, build profile) plus a failure at every model call of the statistics phase; non-trivial = statistics code entered (successful fit) and either the identities were checked or the under-determined/faulted case was rejected",
@@ -82,6 +124,13 @@ RULES = {
 }
 
 ASSUMPTIONS = {
+    "C01": ["reference linear algebra: one-sided Jacobi SVD in f64 (harness/src/refla.rs)", "states within a factor 2 of the threshold (plus rounding floor) are not judged"],
+    "C02": ["identity tolerance 16(M+2) eps scaled"],
+    "C03": ["full-rank states with 256 max(N,M) eps kappa <= 1e-2 only"],
+    "C06": ["tolerance 1024 eps kappa^2 when twins are not bitwise equal"],
+    "C07": ["tolerance 1024 eps kappa^2 when blocks are not bitwise equal"],
+    "C10": ["alphabets of parameter vectors, not all reals"],
+    "C11": ["real rayon scheduling is whatever the OS gives during the run; exhaustive schedules are a separate engine"],
     "C08": ["a case that is silent for 4 s is counted as not returning", "values outside the 14-value alphabet are not tried"],
     "C09": ["failures are injected by a wrapper model; the wrapped zoo models never fail on their own"],
     "C12": ["shapes up to M,P <= 3"],
